@@ -16,6 +16,8 @@
 
 /* flags for vs_name_ex */
 #define VS_QUIET_LOADS 1 /* do not log loads of this object */
+#define VS_SNAP 2        /* log a hex snapshot of the object (`P name hex`) at every clear/store/RMW on it, i.e. when its lock is
+                          * released or a field is published; the bytes are read while nobody else runs */
 
 void vs_init(uint64_t seed, const char *mode, const char *logpath); /* mode: "rand:<stick%>" | "pct:<depth>" */
 int vs_finish(void);          /* stop controlling; returns 0 ok */
